@@ -47,6 +47,15 @@ Definition cal_spec (W : Z) (isdt : bool) (Y M Wk D h m s us : Z) : result ndt :
 Lemma ym_add_month y m k : 1 <= snd (ym_add y m k) <= 12.
 Proof. unfold ym_add. cbn [snd]. lia. Qed.
 
+(* ym_add is arithmetic on the month index 12*year + (month-1): it adds k to the index, composes additively, 0 is neutral *)
+Lemma ym_add_arith y m a b : 1 <= m <= 12 ->
+  ym_add y m 0 = (y, m) /\
+  (let '(y1, m1) := ym_add y m a in ym_add y1 m1 b) = ym_add y m (a + b) /\
+  (let '(y1, m1) := ym_add y m a in 12 * y1 + (m1 - 1) = 12 * y + (m - 1) + a /\ 1 <= m1 <= 12).
+Proof.
+  intros Hm. unfold ym_add. repeat split; try (f_equal; lia); lia.
+Qed.
+
 (* the translated function = the specification, for every integer amount *)
 Lemma add_duration_cal W isdt Y M Wk D h m s us : wall_in_range W = true ->
   py_add_duration (mkndt W isdt) Y M Wk D h m s us = cal_spec W isdt Y M Wk D h m s us.
